@@ -6,5 +6,5 @@ Extraction Language OCaml.
 Extraction "../oracle/c07/model.ml"
   z_of_n n_of_z z_is_neg log_credit ledger_of
   mkAcc mkL view apply_ops sum_bal sum_eng energy_delta_ops self_destruct_to_self
-  mkClause mkTx mkEnv mkCI intrinsic_gas exec_tx adopt_all adopt_full mkAI mkFE mkFS
+  mkClause mkTx mkEnv mkCI intrinsic_gas exec_tx adopt_all adopt_full mkAI mkFE mkFS distribute
   calc_base_fee.
